@@ -87,6 +87,43 @@ func (e *Engine) scanNondet() []ScanFinding {
 	return out
 }
 
+// scanStdout: everything that writes to standard output (C01: stdout carries one serialized response
+// and nothing else): fmt.Print*, the print/println built-ins (they write to stderr, listed for
+// review), and every use of os.Stdout.
+func (e *Engine) scanStdout() []ScanFinding {
+	var out []ScanFinding
+	printers := map[string]bool{"fmt.Print": true, "fmt.Printf": true, "fmt.Println": true}
+	for _, f := range e.allFuncs() {
+		name := f.String()
+		if f.Parent() != nil {
+			name = f.Parent().String() + "$" + f.Name()
+		}
+		for _, b := range f.Blocks {
+			for _, ins := range b.Instrs {
+				pos := ""
+				if ins.Pos().IsValid() {
+					p := e.fset.Position(ins.Pos())
+					pos = fmt.Sprintf("%s:%d", p.Filename, p.Line)
+				}
+				if ci, ok := ins.(ssa.CallInstruction); ok {
+					if callee := ci.Common().StaticCallee(); callee != nil && printers[funcKey(callee)] {
+						out = append(out, ScanFinding{name, "call of " + funcKey(callee) + " (writes to stdout)", pos})
+					}
+				}
+				for _, op := range ins.Operands(nil) {
+					if op == nil || *op == nil {
+						continue
+					}
+					if g, ok := (*op).(*ssa.Global); ok && g.Pkg != nil && g.Pkg.Pkg.Path() == "os" && g.Name() == "Stdout" {
+						out = append(out, ScanFinding{name, "use of os.Stdout", pos})
+					}
+				}
+			}
+		}
+	}
+	return out
+}
+
 // scanFieldReads: for every function declared in the given files (and its closures), the struct
 // fields of the named types it reads.
 func (e *Engine) scanFieldReads(files []string, typeNames []string) map[string][]string {
